@@ -79,7 +79,7 @@ def classify(oc, data, cdc):
 
 def run(ctx):
     ctx.rule = ('all byte strings of length <= 2 (quick) / <= 3 (thorough) over 18 structural octets, and mutants (bit flip, insert, delete, '
-                'tag/length rewrite, truncation, duplication) of valid encodings; BER, CER and DER decoders, one-shot and streaming; 15 guiding '
+                'tag/length rewrite, truncation, duplication) of valid encodings; primitive contents over 14 significant octets and a sweep of all 256 first contents octets of BIT STRING/OID/REAL; BER, CER and DER decoders, one-shot and streaming; 15 guiding '
                 'types and none; outcome must be a value object + remainder or a PyAsn1Error; reads bounded by 8*len+16; non-trivial = length >= 2')
     search_only = getattr(ctx, 'search_only', False)
     specs = [(sd, U.build_type(sd) if sd is not None else None, U.coq_ty(sd) if sd is not None else None) for sd in SPECS]
@@ -110,6 +110,17 @@ def run(ctx):
             if len(ct) >= 2 and ctx.tier == 'quick' and tg not in (3, 6, 9) and ctx.rng.random() < 0.6:
                 continue
             inputs.append(('str', bytes([tg, len(ct)]) + bytes(ct), sd))
+    # sweep: every first contents octet of BIT STRING / OBJECT IDENTIFIER / REAL, with a small set of
+    # second and third octets (count octets 0 and 1, sign bits, continuation bits); quick takes a third
+    for tg in (3, 6, 9):
+        sd = PRIM[tg]
+        for a in range(256):
+            for b2 in (0x00, 0x01, 0x02, 0x80, 0xff):
+                for c3 in (None, 0x00, 0x01, 0xff):
+                    if ctx.tier == 'quick' and ctx.rng.random() < 0.67:
+                        continue
+                    ct = bytes([a, b2] + ([c3] if c3 is not None else []))
+                    inputs.append(('str', bytes([tg, len(ct)]) + ct, sd))
     exprs, meta = [], []
     for item in inputs:
         data = item[1]
